@@ -606,6 +606,10 @@ class MagicRobot(wpilib.RobotBase):
             if m.startswith("_"):
                 continue
 
+            # A type-hinted tunable of the robot is not a component
+            if isinstance(getattr(cls, m, None), tunable):
+                continue
+
             # If the variable has been set, skip it
             if hasattr(self, m):
                 continue
